@@ -202,7 +202,8 @@ Proof.
     apply filter_In. split; [assumption|]. now apply negb_true_iff, memk_false.
 Qed.
 
-Definition dupes_path (rw : list mrec) (n : nat) : bool := negb (Nat.eqb (length (by_key_of rw)) n).
+Definition dupes_path (rw : list mrec) (n : nat) : bool :=
+  negb (Nat.eqb (length (by_key_of rw)) n) || negb (Nat.eqb (length (by_key_of rw)) (length rw)).
 
 (* the keymap of a compiled statement (n > 0) *)
 Lemma keymap_get_amb : forall rw n tr k, n <> 0 -> dupes_path rw n = true -> In k (dupes_of rw) ->
